@@ -28,6 +28,28 @@ def gen(rng, tier, kinds=None, ints=True, outcomes=('optimal',)):
         A = rng.integers(0, 100, (2, n))
         spec = {'n': n, 'A': A.tolist(), 'd': (A.sum(axis=1) // 2).tolist(), 'outcome': 'optimal',
                 'spell': int(rng.integers(1 << 30))}
+    elif kind == 'bknap':
+        # bounded binary programs (knapsack rows, user bounds on some binaries that switch them
+        # off or force them in, optionally continuous variables in a second-order cone): small
+        # enough for every interface including ECOS' branch and bound
+        n = int(rng.integers(4, 9))
+        spec = {'n': n, 'val': rng.integers(1, 12, n).tolist(),
+                'w': rng.integers(1, 9, (int(rng.integers(1, 3)), n)).tolist(),
+                'sense': ['max', 'min'][int(rng.random() < 0.3)],
+                'ub': {}, 'lb': {}, 'soc': bool(rng.random() < 0.35),
+                'style': int(rng.integers(3)), 'outcome': 'optimal',
+                'spell': int(rng.integers(1 << 30))}
+        spec['cap'] = [int(max(3, 0.5 * sum(r))) for r in spec['w']]
+        for i in range(n):
+            r = rng.random()
+            if r < 0.2:
+                spec['ub'][str(i)] = [0.0, 0.0, 0.5, 0.99][int(rng.integers(4))]
+            elif r < 0.35:
+                spec['lb'][str(i)] = [1.0, 1.0, 0.5, 0.01][int(rng.integers(4))]
+        # keep it feasible: forced items must fit
+        for k, row in enumerate(spec['w']):
+            need = sum(row[int(i)] for i in spec['lb'])
+            spec['cap'][k] = max(spec['cap'][k], need)
     elif kind == 'dro':
         spec = DR.gen(rng, tier)
         spec['outcome'] = 'optimal'
@@ -59,9 +81,55 @@ def build_msplit(spec):
     return B
 
 
+def build_bknap(spec):
+    import rsome as rso
+    from rsome import ro
+    m = ro.Model()
+    n = spec['n']
+    x = m.dvar(n, 'B')
+    val = np.array(spec['val'], float)
+    xs = [x]
+    obj = val @ x
+    if spec['soc']:
+        y = m.dvar(2)
+        xs.append(y)
+        m.st(rso.sumsqr(y) <= 2.0)
+        obj = obj + (y[0] + 0.5 * y[1] if spec['sense'] == 'max' else -y[0] - 0.5 * y[1])
+    if spec['sense'] == 'max':
+        m.max(obj)
+        for row, cap in zip(spec['w'], spec['cap']):
+            m.st(np.array(row, float) @ x <= float(cap))
+    else:
+        m.min(obj)
+        for row, cap in zip(spec['w'], spec['cap']):
+            m.st(np.array(row, float) @ x >= float(min(cap, sum(row)) // 2))
+    st = spec['style']
+    if st == 2 and (spec['ub'] or spec['lb']):
+        ub = np.ones(n)
+        lb = np.zeros(n)
+        for i, b in spec['ub'].items():
+            ub[int(i)] = b
+        for i, b in spec['lb'].items():
+            lb[int(i)] = b
+        m.st(x <= ub, x >= lb)                  # whole-variable bound objects
+    else:
+        for i, b in spec['ub'].items():
+            m.st(x[int(i)] <= b) if st == 0 else m.st(1.0 * x[int(i)] <= b)
+        for i, b in spec['lb'].items():
+            m.st(x[int(i)] >= b) if st == 0 else m.st(1.0 * x[int(i)] >= b)
+    B = _B()
+    B.model = m
+    B.xs = xs
+    B.arrays = []
+    B.digests = []
+    return B
+
+
 def build(src, variant=None):
     if src['kind'] == 'msplit':
         return build_msplit(src['spec'])
+    if src['kind'] == 'bknap':
+        return build_bknap(src['spec'])
     if src['kind'] in ('lp', 'milp', 'conic'):
         return D.build(src['spec'], variant)
     if src['kind'] == 'dro':
